@@ -58,12 +58,13 @@ def gen_abstract_impls(s):
     return '\n'.join(out)
 
 
-def build(repo, vc_files=None, canary=False):
+def build(repo, vc_files=None, canary=False, skip=frozenset()):
     s, counts = ex.extract(repo)
     if vc_files is None:
         vc_files = sorted(glob.glob(os.path.join(ROOT, 'contracts', '*.vc')))
     impls = gen_abstract_impls(s)
-    s, info = inj.inject(s, vc_files)
+    s, info = inj.inject(s, vc_files, skip)
+    info['skipped'] = sorted(skip)
     if canary:
         s = add_canaries(s, info)
     pre = open(os.path.join(ROOT, 'contracts', 'preamble.rs')).read()
